@@ -101,6 +101,8 @@ struct Results {
     /// accepts a migration)
     server_ready: std::collections::BTreeSet<u32>,
     client_confirmed: std::collections::BTreeSet<u32>,
+    /// no fault of any kind is injected into the network of this world
+    fault_free: bool,
 }
 
 type Res = Arc<Mutex<Results>>;
@@ -569,6 +571,17 @@ async fn client_main(sim: Sim, res: Res, lbl: Lbl, ep: Endpoint, cfg: quinn::Cli
         sleep(&sim, nap).await;
         nap = (nap * 2).min(1000 * MS);
     }
+    {
+        // A response to a request was read: the server had completed the handshake two trips
+        // ago and its HANDSHAKE_DONE travelled ahead of that response. On a network without
+        // faults handshake_confirmed() must have returned by now — not only when the connection
+        // goes away.
+        let r = res.lock().unwrap();
+        if r.fault_free && r.resp_read.keys().any(|(c, _)| *c == ci) && !r.client_confirmed.contains(&ci) && conn.close_reason().is_none() {
+            drop(r);
+            sim.violate("async-completion-late", format!("client {}: a response has been read to its end, yet handshake_confirmed() has not returned (fault-free network)", ci));
+        }
+    }
     res.lock().unwrap().closing.insert(ci);
     if plan.explicit_close || plan.parked {
         lbl.set("close");
@@ -863,6 +876,7 @@ fn run(mut ch: Chooser, ctx: &RunCtx, faults: bool, big: bool) -> RunOut {
     let rt: Arc<dyn quinn::Runtime> = Arc::new(SimRuntime(sim.clone()));
     let res: Res = Arc::new(Mutex::new(Results::default()));
     res.lock().unwrap().lossy = net.faults && net.drop > 0;
+    res.lock().unwrap().fault_free = !net.faults;
     let clock = cfgs::SimTime::new();
 
     // server
